@@ -137,10 +137,13 @@ let () =
         let verdict =
           match outs with
           | [_; al; bl; af; bf; ad; bd] when claimed ->
+              (* without a '[' the domain cannot be an IP literal: then acceptance itself is case-blind *)
+              let no_literal = kind = "case" && not (List.exists (fun c -> int_of_n c = 91) a) in
               let check (mname, x, y) =
                 match impl_opt x, impl_opt y with
                 | Some n1, Some n2 when n1 <> n2 ->
                     (if kind = "case" then "case-variants-get-different-names:" else "plus-extension-changes-name:") ^ mname
+                | Some _, None | None, Some _ when no_literal -> "case-variant-of-accepted-address-rejected:" ^ mname
                 | _ -> "" in
               first_fail (List.map check [("local", al, bl); ("full", af, bf); ("domain", ad, bd)])
           | "PANIC" :: _ -> "fail:panic"
